@@ -28,6 +28,8 @@ static void setup() { if (!g_polys.empty()) return; using namespace sc;
       Poly inw = ct; inw.name = "cube_12_triangles_all_wound_inward"; for (auto& f : inw.faces) std::swap(f[1], f[2]);   // legal: 'in any winding'
       g_polys.push_back(inw); g_first_invalid = g_polys.size(); g_polys.push_back(open); g_polys.push_back(pin); }
     size_t n = g_first_invalid - 1; for (size_t i = 0; i < n; i++) if (i == 0 || i == 2 || i == 6 || i == 7 || i == 9) g_polys.push_back(moved(g_polys[i], 2.5, 1024, -1024, 512, "_x2.5_at_(1024,-1024,512)"));
+    // micrometre polyhedra in metres (volumes of 1e-18: anything absolute in the orientation or integrity decisions shows here), one outward, one inward, one mixed
+    g_polys.push_back(moved(g_polys[2], 1e-6, 0, 0, 0, "_one_micrometre_in_metres")); g_polys.push_back(moved(g_polys[g_first_invalid - 1], 1e-6, 0, 0, 0, "_one_micrometre_in_metres")); g_polys.push_back(moved(g_polys[1], 1e-6, 0, 0, 0, "_one_micrometre_in_metres"));
 }
 static double poly_size(const Poly& p) { double lo[3] = {1e300, 1e300, 1e300}, hi[3] = {-1e300, -1e300, -1e300}; for (size_t i = 0; i < p.pos.size(); i += 3) for (int k = 0; k < 3; k++) { lo[k] = std::min(lo[k], p.pos[i+k]); hi[k] = std::max(hi[k], p.pos[i+k]); } return std::max({hi[0] - lo[0], hi[1] - lo[1], hi[2] - lo[2]}); }
 // fan triangulation about the face centre (what the code's own coarse step does) for the reference surface
